@@ -5,7 +5,14 @@
 `logger.add` the compression openers (`gzip.open`, `bz2.open`, `lzma.open`, `tarfile.open`,
 `zipfile.ZipFile`) are replaced as well (the sink captures them in `functools.partial`s).  All proxies
 work on the REAL file system (a scratch directory); every call of a primitive is numbered and logged,
-and call k raises `OSError(EIO)` *instead of* acting when k is in `fault_at`.
+and call k raises `OSError(errno)` *instead of* acting when k is a key of `fault_at` (a dict
+index -> errno; the errno is part of the quantifier: ENOSPC, EDQUOT, EIO, EACCES, EPERM, EROFS, EMFILE, …;
+the exception is built with `OSError(errno, msg)` so that CPython picks the subclass – PermissionError
+etc. – exactly as for a real failure).
+
+A `stat`/`remove` counts as a RETENTION step when it is issued from inside the retention policy (a frame
+of `Retention.retention_count/age` or of a registered retention callable is on the stack); this does not
+depend on where the sink calls `glob.glob`.
 
 Primitive kinds (same names as `FileSink.Ev` of the Lean model):
   mkdirs open fstat write flush close stat getctime rename remove glob openr copen ccopy rotcall
@@ -20,18 +27,23 @@ import gzip
 import lzma
 import os as real_os
 import shutil as real_shutil
+import sys
 import tarfile
 import zipfile
 
 
-class Injected(OSError):
-    pass
+ERRNOS = ["EIO", "ENOSPC", "EDQUOT", "EACCES", "EPERM", "EROFS", "EMFILE"]
+
+
+def is_injected(e):
+    return isinstance(e, OSError) and getattr(e, "injected", False)
 
 
 class Shim:
     def __init__(self):
         self.calls = []          # (kind, args tuple of str)
-        self.fault_at = frozenset()
+        self.fault_at = {}       # primitive index -> errno number
+        self.retention_codes = set()   # code objects of user retention callables
         self.k = 0
         self.in_retention = False
         self.clock = None        # callable -> aware datetime (for `{time}` in paths)
@@ -44,13 +56,26 @@ class Shim:
     def begin_call(self):
         self.in_retention = False
 
+    def in_retention_now(self):
+        f = sys._getframe(1)
+        while f is not None:
+            co = f.f_code
+            if co in self.retention_codes:
+                return True
+            if co.co_name in ("retention_count", "retention_age") and co.co_filename.endswith("_file_sink.py"):
+                return True
+            f = f.f_back
+        return False
+
     def prim(self, kind, *args):
         idx = self.k
         self.k += 1
         self.calls.append((kind, tuple(args)))
         if idx in self.fault_at:
             self.faulted.append(idx)
-            raise Injected(errno.EIO, "injected fault at primitive #%d (%s)" % (idx, kind))
+            e = OSError(self.fault_at[idx], "injected fault at primitive #%d (%s)" % (idx, kind))
+            e.injected = True
+            raise e
         return idx
 
     # ------------------------------------------------------------------ install / remove
@@ -155,7 +180,7 @@ class _FileProxy:
     def close(self):
         try:
             self._shim.prim("close")
-        except Injected:
+        except OSError:
             # CPython: a close() that fails still leaves the file object closed
             try:
                 self._f.close()
@@ -212,16 +237,17 @@ class _OsProxy:
 
     def remove(self, path):
         s = self._shim
-        s.prim("remove", path, "retention" if s.in_retention else "compression")
+        phase = "retention" if s.in_retention_now() else "compression"
+        s.prim("remove", path, phase)
         if s.on_remove is not None:
-            s.on_remove(path, "retention" if s.in_retention else "compression")
+            s.on_remove(path, phase)
         return real_os.remove(path)
 
     def unlink(self, path):
         return self.remove(path)
 
     def stat(self, path, *args, **kwargs):
-        self._shim.prim("retstat" if self._shim.in_retention else "stat", path)
+        self._shim.prim("retstat" if self._shim.in_retention_now() else "stat", path)
         return real_os.stat(path, *args, **kwargs)
 
     def fstat(self, fd):
